@@ -3082,10 +3082,19 @@ where
                     }
 
                     let (vertex_key, hint) = result;
-                    if let Some(index) = index.as_deref_mut()
-                        && let Some(vertex) = self.tds.get_vertex_by_key(vertex_key)
-                    {
-                        index.insert_vertex(vertex_key, vertex.point().coords());
+                    if let Some(index) = index.as_deref_mut() {
+                        if self.tds.number_of_vertices() == D + 1 {
+                            // The initial simplex was just built: `try_insert_impl` replaced the
+                            // whole TDS, so the keys recorded for the first D vertices are only
+                            // valid if the rebuilt slot map happened to allocate the same keys
+                            // (not the case after earlier removals). Re-seed the index.
+                            index.clear();
+                            for (vkey, v) in self.tds.vertices() {
+                                index.insert_vertex(vkey, v.point().coords());
+                            }
+                        } else if let Some(vertex) = self.tds.get_vertex_by_key(vertex_key) {
+                            index.insert_vertex(vertex_key, vertex.point().coords());
+                        }
                     }
 
                     return Ok((InsertionOutcome::Inserted { vertex_key, hint }, stats));
